@@ -899,8 +899,9 @@ public:
     /**
      * Load outIndex array
      **/
-    assert(edgeIndData.data());
-    if (!edgeIndData.data()) {
+    // an array of size 0 has no storage: only a missing non-empty array is an
+    // allocation failure
+    if (numNodes && !edgeIndData.data()) {
       GALOIS_DIE("out of memory");
     }
 
@@ -912,8 +913,7 @@ public:
     /**
      * Load edgeDst array
      **/
-    assert(edgeDst.data());
-    if (!edgeDst.data()) {
+    if (numEdges && !edgeDst.data()) {
       GALOIS_DIE("out of memory");
     }
 
@@ -941,8 +941,7 @@ public:
     /**
      * Load edge data array
      **/
-    assert(edgeData.data());
-    if (!edgeData.data()) {
+    if (numEdges && !edgeData.data()) {
       GALOIS_DIE("out of memory");
     }
     graphFile.seekg(readPosition);
@@ -980,8 +979,9 @@ public:
     /**
      * Load outIndex array
      **/
-    assert(edgeIndData.data());
-    if (!edgeIndData.data()) {
+    // an array of size 0 has no storage: only a missing non-empty array is an
+    // allocation failure
+    if (numNodes && !edgeIndData.data()) {
       GALOIS_DIE("out of memory");
     }
     // start position to read index data
@@ -992,8 +992,7 @@ public:
     /**
      * Load edgeDst array
      **/
-    assert(edgeDst.data());
-    if (!edgeDst.data()) {
+    if (numEdges && !edgeDst.data()) {
       GALOIS_DIE("out of memory");
     }
     readPosition = ((4 + numNodes) * sizeof(uint64_t));
